@@ -392,6 +392,7 @@ func TestGen(t *testing.T) {
 		"all four modes at every level, 0..3 port-level entries, creation-time ties (except where the real code iterates krt maps); each world is run through " +
 		"initAuthenticationPolicies + GetPeerAuthenticationsForWorkload + NewPolicyApplier + mtlsChecker + namespace getters (Pipeline), the inbound chain options per probed port (Chains), " +
 		"ComposePeerAuthentication / convertPeerAuthentication / convertedSelectorPeerAuthentications directly, and PolicyCollections + buildWorkloadPolicies over krt (Ambient). " +
+		"LISTENER: the real virtualInbound listener (ConfigGenTest.BuildListeners) of a server workload with an HTTP and a TCP service port under product + random policy sets; chains grouped by destination port, probed on service ports, non-service ports with port-level entries, an unmentioned port and the catch-all. " +
 		"HISTORY: a fake discovery server with warm xDS caches, a connected client (CDS + EDS streams) and a server workload; create / in-place update / delete of mesh-, namespace- and workload-level policies, each followed by the triggered push; after every push the server's inbound mode and virtualInbound chains for the port are compared with the CDS auto-mTLS transport-socket match and the EDS tlsMode metadata the client was sent. " +
 		"non-trivial = at least one policy applies to the workload (pipeline/ambient) / the policy has port-level entries (convert)"
 	g := &gen{c: c}
@@ -523,6 +524,7 @@ func TestGen(t *testing.T) {
 		rr := r.Sub()
 		g.ambientE2E(genWorld(rr, true), "ambient-random")
 	}
+	g.listeners(t, r)
 	g.histories(t, r)
 	if err := c.Flush(); err != nil {
 		t.Fatal(err)
